@@ -478,15 +478,17 @@ func (rw *rewriter) selectStmt(s *ast.SelectStmt, lab *ast.LabeledStmt) []ast.St
 	hasDefault := false
 
 	for _, c := range s.Body.List {
-		cc := c.(*ast.CommClause)
-		if cc.Comm == nil {
+		if c.(*ast.CommClause).Comm == nil {
 			hasDefault = true
 		}
-
-		cc.Body = rw.stmts(cc.Body)
 	}
 
 	if hasDefault {
+		for _, c := range s.Body.List {
+			cc := c.(*ast.CommClause)
+			cc.Body = rw.stmts(cc.Body)
+		}
+
 		var st ast.Stmt = s
 		if lab != nil {
 			lab.Stmt = s
@@ -496,18 +498,106 @@ func (rw *rewriter) selectStmt(s *ast.SelectStmt, lab *ast.LabeledStmt) []ast.St
 		return []ast.Stmt{&ast.ExprStmt{X: rw.vcall(s, "Yield")}, st}
 	}
 
-	if lab == nil {
-		rw.nlabel++
-		lab = &ast.LabeledStmt{Label: ast.NewIdent(fmt.Sprintf("_vsel%d", rw.nlabel))}
+	// A blocking select keeps its original form when no controlled execution is active (daemon goroutines
+	// running for real), and becomes a polling loop under the scheduler:
+	//
+	//	if !vsched.Active() { <original select> } else { L: select { ...; default: vsched.Poll(); goto L } }
+	orig := rw.cloneStmt(s)
+
+	for _, c := range orig.(*ast.SelectStmt).Body.List {
+		cc := c.(*ast.CommClause)
+		cc.Body = rw.stmts(cc.Body)
 	}
 
-	lab.Stmt = s
+	for _, c := range s.Body.List {
+		cc := c.(*ast.CommClause)
+		cc.Body = rw.stmts(cc.Body)
+	}
+
+	rw.nlabel++
+	poll := &ast.LabeledStmt{Label: ast.NewIdent(fmt.Sprintf("_vsel%d", rw.nlabel)), Stmt: s}
 	s.Body.List = append(s.Body.List, &ast.CommClause{Body: []ast.Stmt{
 		&ast.ExprStmt{X: rw.vcall(s.Body, "Poll")},
-		&ast.BranchStmt{Tok: token.GOTO, Label: ast.NewIdent(lab.Label.Name)},
+		&ast.BranchStmt{Tok: token.GOTO, Label: ast.NewIdent(poll.Label.Name)},
 	}})
 
-	return one(lab)
+	dual := &ast.IfStmt{
+		Cond: &ast.UnaryExpr{Op: token.NOT, X: rw.vcall(s, "Active")},
+		Body: &ast.BlockStmt{List: []ast.Stmt{orig}},
+		Else: &ast.BlockStmt{List: []ast.Stmt{poll}},
+	}
+
+	if lab != nil {
+		// an existing label (target of break/continue inside the cases) keeps naming the whole construct
+		lab.Stmt = dual
+		return one(lab)
+	}
+
+	return one(dual)
+}
+
+// cloneStmt deep-copies a statement by printing and re-parsing it.
+func (rw *rewriter) cloneStmt(s ast.Stmt) ast.Stmt {
+	var buf bytes.Buffer
+	if err := format.Node(&buf, rw.fset, s); err != nil {
+		fail("%s: cannot print statement for cloning: %v", rw.pos(s), err)
+	}
+
+	src := "package p\nfunc _() {\n" + buf.String() + "\n}\n"
+
+	f, err := parser.ParseFile(token.NewFileSet(), "clone.go", src, 0)
+	if err != nil {
+		fail("%s: cannot re-parse cloned statement: %v", rw.pos(s), err)
+	}
+
+	body := f.Decls[0].(*ast.FuncDecl).Body.List
+	if len(body) != 1 {
+		fail("%s: cloned statement parsed into %d statements", rw.pos(s), len(body))
+	}
+
+	clearPos(body[0])
+
+	return body[0]
+}
+
+// clearPos removes position information of a cloned subtree (it refers to another file set).
+func clearPos(n ast.Node) {
+	ast.Inspect(n, func(x ast.Node) bool {
+		switch v := x.(type) {
+		case *ast.Ident:
+			v.NamePos = token.NoPos
+		case *ast.BasicLit:
+			v.ValuePos = token.NoPos
+		case *ast.CallExpr:
+			v.Lparen, v.Rparen = token.NoPos, token.NoPos
+		case *ast.SelectStmt:
+			v.Select = token.NoPos
+		case *ast.BlockStmt:
+			v.Lbrace, v.Rbrace = token.NoPos, token.NoPos
+		case *ast.CommClause:
+			v.Case, v.Colon = token.NoPos, token.NoPos
+		case *ast.UnaryExpr:
+			v.OpPos = token.NoPos
+		case *ast.IfStmt:
+			v.If = token.NoPos
+		case *ast.ReturnStmt:
+			v.Return = token.NoPos
+		case *ast.AssignStmt:
+			v.TokPos = token.NoPos
+		case *ast.CompositeLit:
+			v.Lbrace, v.Rbrace = token.NoPos, token.NoPos
+		case *ast.ParenExpr:
+			v.Lparen, v.Rparen = token.NoPos, token.NoPos
+		case *ast.BinaryExpr:
+			v.OpPos = token.NoPos
+		case *ast.ForStmt:
+			v.For = token.NoPos
+		case *ast.FuncLit:
+			v.Type.Func = token.NoPos
+		}
+
+		return true
+	})
 }
 
 // rangeOverChan desugars `for v := range ch { body }` into a Recv2 loop.
